@@ -27,7 +27,7 @@ Requirements for each change:
 How to work:
 - Go toolchain: first run `export PATH=/root/go/pkg/mod/golang.org/toolchain@v0.0.1-go1.25.2.linux-amd64/bin:$PATH GOTOOLCHAIN=local GOFLAGS=-mod=mod GOPROXY=off GOSUMDB=off` in every shell call (environment does not persist between calls), then plain `go ...` works offline (from inside {wt}, or inside {wt}/addons/processors/<name> for the addon modules, which are separate Go modules).
 - Read the relevant source files first. Then make change 1, and check: `go build ./...` succeeds and the existing tests of every package you touched or that depends closely on it pass, e.g. `go test -vet=off -count=1 ./pkg/... ./cmd/... ./internal/...` (the full suite takes ~5 minutes; run at least the packages affected, and preferably everything once at the end).
-- Write the demonstration test, confirm it FAILS with the change applied and PASSES on the unchanged tree (use `git stash` / `git stash pop` or `git diff > p; git checkout -- .; ...; git apply p`).
+- Write the demonstration test, confirm it FAILS with the change applied and PASSES on the unchanged tree (use `git diff > /tmp/p_{pid}.diff; git checkout -- .; ...; git apply /tmp/p_{pid}.diff`; NEVER use `git stash` - the stash is shared with other checkouts).
 - Save, for change N in (1,2), under {wt}/SEED/N/ :
     patch.diff   - output of `git diff` containing ONLY the non-test source change (apply-able with `git apply` on the unchanged tree)
     demo_test.go - the demonstration test file (state in meta.json the directory it must be copied to, e.g. pkg/storage/)
